@@ -31,17 +31,15 @@ def _str_for_multioption_field(instance):
     return f"<{name}{propst}>"
 
 
-def _scratch_instance(instance):
+def _scratch_instance(_instance):
     """
     Options are tried on a scratch structure, so that a rejected value never
     reaches the real instance and an option's own state (e.g. an immutable
     field that is already set) does not depend on what other options stored.
     """
-    scratch = Structure()
-    for flag in ("_skip_validation", "_trust_supplied_values"):
-        if getattr(instance, flag, False):
-            scratch.__dict__[flag] = True
-    return scratch
+    # Deliberately without the instance's "_skip_validation" flag (set during deepcopy):
+    # which options match can only be decided by really validating them.
+    return Structure()
 
 
 class MultiFieldWrapper:
